@@ -1,6 +1,7 @@
 pub mod c01;
 pub mod c03;
 pub mod c07;
+pub mod c08;
 pub mod c10;
 pub mod c11;
 pub mod c14;
